@@ -40,13 +40,16 @@ pub struct Kind {
     /// two server instances (each with its own storage object) on one SQLite directory; requests
     /// go to either one
     pub peers: bool,
+    /// the directory is first served by the pinned release (vendored crates, library entry) and
+    /// taken over by the code under test after some operations (SQLite, library entry only)
+    pub pinned_first: bool,
 }
 
 impl Kind {
-    pub const MEM_LIB: Kind = Kind { backend: Backend::Mem, entry: Entry::Lib, reopen_pct: 0, socket: false, peers: false };
-    pub const MEM_HTTP: Kind = Kind { backend: Backend::Mem, entry: Entry::Http, reopen_pct: 0, socket: false, peers: false };
-    pub const SQL_LIB: Kind = Kind { backend: Backend::Sqlite, entry: Entry::Lib, reopen_pct: 0, socket: false, peers: false };
-    pub const SQL_HTTP: Kind = Kind { backend: Backend::Sqlite, entry: Entry::Http, reopen_pct: 0, socket: false, peers: false };
+    pub const MEM_LIB: Kind = Kind { backend: Backend::Mem, entry: Entry::Lib, reopen_pct: 0, socket: false, peers: false, pinned_first: false };
+    pub const MEM_HTTP: Kind = Kind { backend: Backend::Mem, entry: Entry::Http, reopen_pct: 0, socket: false, peers: false, pinned_first: false };
+    pub const SQL_LIB: Kind = Kind { backend: Backend::Sqlite, entry: Entry::Lib, reopen_pct: 0, socket: false, peers: false, pinned_first: false };
+    pub const SQL_HTTP: Kind = Kind { backend: Backend::Sqlite, entry: Entry::Http, reopen_pct: 0, socket: false, peers: false, pinned_first: false };
     pub fn name(&self) -> String {
         format!(
             "{}/{}{}",
@@ -59,7 +62,7 @@ impl Kind {
                 Entry::Http => "http",
             },
             if self.socket && self.reopen_pct > 0 { format!("+executable+restart{}", self.reopen_pct) } else if self.socket { "+socket".to_string() } else if self.reopen_pct > 0 { format!("+reopen{}", self.reopen_pct) } else { String::new() }
-        ) + if self.peers { "+2instances" } else { "" }
+        ) + if self.peers { "+2instances" } else { "" } + if self.pinned_first { "+taken-over-from-pinned-release" } else { "" }
     }
 }
 
@@ -126,6 +129,11 @@ pub struct Subject {
     bystander: Option<rusqlite::Connection>,
     keepalive_mode: bool,
     keepalive: Option<(String, crate::http::KeepAlive)>,
+    /// first life: the pinned release serves the directory for `upgrade_after` operations
+    pinned: Option<Arc<crate::pinned::PServer>>,
+    upgrade_after: usize,
+    ops_done: usize,
+    pub upgraded: bool,
 }
 
 static SOCKET_SUBJECTS: std::sync::atomic::AtomicUsize = std::sync::atomic::AtomicUsize::new(0);
@@ -145,6 +153,15 @@ impl Subject {
     }
 
     pub fn with(kind: Kind, config: Config, allowlist: Option<HashSet<Uuid>>, wrap: Option<StorageWrap>) -> anyhow::Result<Subject> {
+        if kind.pinned_first && kind.backend == Backend::Sqlite && kind.entry == Entry::Lib && wrap.is_none() {
+            let d = ScratchDir::new("dbp");
+            let ps = crate::pinned::new_server(d.path(), config.snapshot_days, config.snapshot_versions)?;
+            static N: std::sync::atomic::AtomicUsize = std::sync::atomic::AtomicUsize::new(0);
+            let n = N.fetch_add(1, std::sync::atomic::Ordering::SeqCst);
+            let storage: Arc<dyn Storage> = Arc::new(crate::pinned::ViaPinned(ps.clone()));
+            let s = Subject { kind, config, allowlist, storage, front: None, peer: None, peer_turn: 0, dir: Some(d), wrap, last_http: None, reopens: 0, tap: None, binary: false, bystander: None, keepalive_mode: false, keepalive: None, pinned: Some(ps), upgrade_after: 4 + (n * 7) % 37, ops_done: 0, upgraded: false };
+            return Ok(s);
+        }
         let (storage, dir): (Arc<dyn Storage>, Option<ScratchDir>) = match kind.backend {
             Backend::Mem => (Arc::new(InMemoryStorage::new()), None),
             Backend::Sqlite => {
@@ -153,7 +170,7 @@ impl Subject {
                 (Arc::new(s), Some(d))
             }
         };
-        let mut s = Subject { kind, config, allowlist, storage, front: None, peer: None, peer_turn: 0, dir, wrap, last_http: None, reopens: 0, tap: None, binary: false, bystander: None, keepalive_mode: kind.socket && next_keepalive_mode(), keepalive: None };
+        let mut s = Subject { kind, config, allowlist, storage, front: None, peer: None, peer_turn: 0, dir, wrap, last_http: None, reopens: 0, tap: None, binary: false, bystander: None, keepalive_mode: kind.socket && next_keepalive_mode(), keepalive: None, pinned: None, upgrade_after: 0, ops_done: 0, upgraded: false };
         s.build_front();
         Ok(s)
     }
@@ -166,10 +183,10 @@ impl Subject {
     /// `peers`: requests alternate between the executable and an in-process server instance (another
     /// process, another spelling of the path) on the same directory.
     pub fn with_binary_peers(config: Config, allowlist: Option<HashSet<Uuid>>, reopen_pct: u32, peers: bool) -> anyhow::Result<Subject> {
-        let kind = Kind { backend: Backend::Sqlite, entry: Entry::Http, reopen_pct, socket: true, peers };
+        let kind = Kind { backend: Backend::Sqlite, entry: Entry::Http, reopen_pct, socket: true, peers, pinned_first: false };
         let d = ScratchDir::new("dbbin");
         let st = SqliteStorage::new(d.path())?;
-        let mut s = Subject { kind, config, allowlist, storage: Arc::new(st), front: None, peer: None, peer_turn: 0, dir: Some(d), wrap: None, last_http: None, reopens: 0, tap: None, binary: true, bystander: None, keepalive_mode: next_keepalive_mode(), keepalive: None };
+        let mut s = Subject { kind, config, allowlist, storage: Arc::new(st), front: None, peer: None, peer_turn: 0, dir: Some(d), wrap: None, last_http: None, reopens: 0, tap: None, binary: true, bystander: None, keepalive_mode: next_keepalive_mode(), keepalive: None, pinned: None, upgrade_after: 0, ops_done: 0, upgraded: false };
         s.start_binary()?;
         if BINARY_SUBJECTS.fetch_add(1, std::sync::atomic::Ordering::SeqCst) % 2 == 1 {
             if let Ok(c) = rusqlite::Connection::open(db_file(s.dir.as_ref().unwrap().path())) {
@@ -230,6 +247,10 @@ impl Subject {
             bystander: None,
             keepalive_mode: false,
             keepalive: None,
+            pinned: None,
+            upgrade_after: 0,
+            ops_done: 0,
+            upgraded: false,
         };
         s.build_front();
         Ok(s)
@@ -357,6 +378,15 @@ impl Subject {
     /// Drop the storage object and the server and re-create both on the same directory (the
     /// schema setup is re-run). No-op for the in-memory backend.
     pub fn reopen(&mut self) -> anyhow::Result<()> {
+        if self.pinned.is_some() {
+            self.pinned = None;
+            self.storage = Arc::new(InMemoryStorage::new());
+            let ps = crate::pinned::new_server(self.dir.as_ref().unwrap().path(), self.config.snapshot_days, self.config.snapshot_versions)?;
+            self.storage = Arc::new(crate::pinned::ViaPinned(ps.clone()));
+            self.pinned = Some(ps);
+            self.reopens += 1;
+            return Ok(());
+        }
         if self.binary {
             // kill -9 and restart on the same directory
             self.front = None;
@@ -481,7 +511,29 @@ impl Subject {
         }
     }
 
+    /// The code under test takes the directory over from the pinned release.
+    fn take_over(&mut self) -> anyhow::Result<()> {
+        self.pinned = None;
+        // (the adapter handle held the last reference to the pinned server's storage)
+        self.storage = Arc::new(InMemoryStorage::new());
+        let st = SqliteStorage::new(self.dir.as_ref().unwrap().path())?;
+        self.storage = Arc::new(st);
+        self.build_front();
+        self.upgraded = true;
+        Ok(())
+    }
+
     pub fn exec(&mut self, client: Uuid, req: &Req) -> Resp {
+        if self.pinned.is_some() {
+            if self.ops_done >= self.upgrade_after {
+                if let Err(e) = self.take_over() {
+                    return Resp::Error(format!("taking the directory over from the pinned release failed: {e:#}"));
+                }
+            } else {
+                self.ops_done += 1;
+                return crate::pinned::exec(self.pinned.as_ref().unwrap(), client, req);
+            }
+        }
         let use_peer = self.use_peer();
         let front = if use_peer { self.peer.as_mut().unwrap() } else { self.front.as_mut().unwrap() };
         match front {
